@@ -76,25 +76,20 @@ def check(model: Model, run: Run) -> None:
         first = nk.node.body[1]
     okz = isinstance(first, ast.If) and norm(first.test) == 'not self.keepalive' and isinstance(first.body[-1], ast.Return) and folder.fold(first.body[-1].value, nk.module, nk.cls) is False
     run.check(okz, nk.qualname, 'keepalive == 0 -> False first', nk.loc(first) if first is not None else nk.loc(), 'with hold time 0 no periodic KEEPALIVE is sent')
-    nl = Loc(model, nk)
-    due = re.compile(r'self\.last_sent \+ self\.keepalive - (.+) <= 0')
+    # evaluated for a clock before, at and after the moment the KEEPALIVE is due (sa/evalfn.py): what counts is the answer and
+    # the recorded send time, not the spelling
+    from ..evalfn import eval_function
+
+    seen_ka = {}
+    okf = True
+    for now, want_fire in ((105, False), (109, False), (110, True), (125, True)):
+        me = {'keepalive': 10, 'last_sent': 100, 'last_print': now, 'session': 0}
+        out: dict = {}
+        res = eval_function(folder, nk, {nk.node.args.args[0].arg: me}, on_unknown=lambda e, now=now: now if isinstance(e, ast.Call) else UNKNOWN, env_out=out)
+        seen_ka[now] = (res, me.get('last_sent'))
+        okf = okf and res is want_fire and me.get('last_sent') == (now if want_fire else 100)
     fire = None
-    okf = False
-    for rt in walk_no_nested(nk.node):
-        if isinstance(rt, ast.Return) and folder.fold(rt.value, nk.module, nk.cls) is True:
-            fire = rt
-            m = [due.fullmatch(x) for x in facts(nl, rt)]
-            m = [x for x in m if x]
-            if len(m) != 1:
-                continue
-            now_txt = m[0].group(1)
-            # the send time is recorded under the same condition
-            rec = [a for a in walk_no_nested(nk.node) if isinstance(a, ast.Assign) and dotted(a.targets[0]) == 'self.last_sent' and nl.expand(a.value) == now_txt and any(due.fullmatch(x) for x in facts(nl, a))]
-            okf = len(rec) == 1
-    # ... and on no other path does it answer True
-    trues = [rt for rt in walk_no_nested(nk.node) if isinstance(rt, ast.Return) and folder.fold(rt.value, nk.module, nk.cls) is not False]
-    okf = okf and len(trues) == 1
-    run.check(okf, nk.qualname, 'fires when last_sent + keepalive - now <= 0 and records now', nk.loc(fire) if fire is not None else nk.loc(), 'a KEEPALIVE is due once a keepalive interval has passed since the last one')
+    run.check(okf, nk.qualname, 'fires when last_sent + keepalive - now <= 0 and records now (last_sent 100, keepalive 10: %s)' % seen_ka, nk.loc(), 'a KEEPALIVE is due once a keepalive interval has passed since the last one: expected no KEEPALIVE at 105 and 109, one at 110 and 125, each recording its time')
     stc = model.func(ST + '.__init__')
     okk = any(isinstance(n, ast.Assign) and dotted(n.targets[0]) == 'self.keepalive' and norm(n.value) == 'holdtime.keepalive()' for n in walk_no_nested(stc.node))
     run.check(okk, stc.qualname, 'self.keepalive = holdtime.keepalive()', stc.loc(), 'the send interval derives from the negotiated hold time')
@@ -199,11 +194,11 @@ def check(model: Model, run: Run) -> None:
     bl = Loc(model, mainf)
     for c in model.calls_to(mainf.module, mainf.node, 'Peer._send_route_updates'):
         if len(c.args) >= 3:
-            v = bl.resolve(c.args[2])
-            if isinstance(v, ast.IfExp):
-                vals = [folder.fold(v.body, mainf.module, mainf.cls), folder.fold(v.orelse, mainf.module, mainf.cls)]
-            else:
-                vals = [folder.fold(v, mainf.module, mainf.cls)]
+            a = c.args[2]
+            cands = bl.values(a.id) if isinstance(a, ast.Name) and bl.values(a.id) else [bl.resolve(a) or a]
+            for v in cands:
+                alts = [v.body, v.orelse] if isinstance(v, ast.IfExp) else [v]
+                vals += [folder.fold(x, mainf.module, mainf.cls) for x in alts]
     run.check(bool(vals) and all(isinstance(v, int) and 1 <= v <= 1000 for v in vals), mainf.qualname, 'routes_per_iteration in %s' % vals, mainf.loc(), 'the per-iteration batch must be a small constant')
 
     # ------------------------------------------------------------------ R5 open wait
